@@ -161,6 +161,36 @@ fn one_mapping(text: &[u8], rng: &mut Rng, rep: &mut Reporter, case_idx: u64, ct
             }
         }
     }
+    // Now and then one very large trace (tens of thousands of resolving frame lines) that
+    // every thread remaps right after the barrier: whatever a call accumulates while it
+    // runs (counters, budgets, scratch buffers) must be its own, not the handle's.
+    let mut big_at = None;
+    if ctx.variant != "miri" && ctx.variant != "tsan" && case_idx % 8 == 1 && !classes.is_empty() {
+        let mut t = String::with_capacity(2_000_000);
+        t.push_str("java.lang.StackOverflowError: deep\n");
+        let mut n = 0;
+        'outer: loop {
+            for cu in &classes {
+                for m in cu.methods.iter().take(6) {
+                    for l in cu.lines.iter().take(6) {
+                        t.push_str(&format!("    at {}.{}(SourceFile:{})\n", cu.name, m, l));
+                        n += 1;
+                        if n >= 24_000 {
+                            break 'outer;
+                        }
+                    }
+                }
+            }
+            if n == 0 {
+                break;
+            }
+        }
+        if n > 0 {
+            big_at = Some(batch.len());
+            batch.push(Q::Text(t));
+            rep.count("batches_with_a_trace_of_24000_frame_lines", 1);
+        }
+    }
     // few keys, many threads: duplicate a handful of hot queries
     let hot: Vec<Q> = batch.iter().take(8).cloned().collect();
     for _ in 0..(batch.len() / 4) {
@@ -223,7 +253,8 @@ fn one_mapping(text: &[u8], rng: &mut Rng, rep: &mut Reporter, case_idx: u64, ct
             r.shuffle(&mut idx);
             idx.truncate((n * 3 / 4).max(1));
             // all threads open with by-params / by-line queries of the same few keys
-            let mut first: Vec<usize> = (0..n).filter(|i| matches!(batch[*i], Q::Params(..))).take(3).collect();
+            let mut first: Vec<usize> = big_at.into_iter().collect();
+            first.extend((0..n).filter(|i| matches!(batch[*i], Q::Params(..))).take(3));
             first.extend(idx.iter().copied());
             let idx = first;
             (idx, r.next_u64())
@@ -292,15 +323,15 @@ fn one_mapping(text: &[u8], rng: &mut Rng, rep: &mut Reporter, case_idx: u64, ct
                 let i = &(*i % batch.len());
                 let mut d = Json::obj();
                 d.set("handle", Json::s(if second { "second mapping (built on another thread)" } else { "first mapping" }));
-                d.set("query", Json::s(format!("{:?}", batch[*i])));
+                d.set("query", Json::s(format!("{:?}", batch[*i]).chars().take(3000).collect::<String>()));
                 d.set("implementation", Json::s(if *use_cache { "cache" } else { "mapper" }));
                 d.set("threads", Json::i(nthreads as u64));
-                d.set("sequential_answer", Json::s(match (*use_cache, second) {
+                d.set("sequential_answer_head", Json::s(match (*use_cache, second) {
                     (true, false) => exp_c[*i].clone(),
                     (false, false) => exp_m[*i].clone(),
                     (true, true) => exp_cb[*i].clone(),
                     (false, true) => exp_mb[*i].clone(),
-                }));
+                }.chars().take(3000).collect::<String>()));
                 rep.violation(case_idx, "concurrent-vs-sequential", &format!("a query issued concurrently returned a different answer than when issued alone impl={}", if *use_cache { "cache" } else { "mapper" }), d);
             }
         }
